@@ -51,7 +51,8 @@ fn transcript(spec: &SessionSpec, payload_classes: &[u8], fill: u64) -> Result<T
         let payload = spec.payload(idx, plen);
         let (w, r) = if idx % 2 == 0 { (&mut hi, &mut hr) } else { (&mut hr, &mut hi) };
         let m = hs_write(w, &payload, 65535 + 16).map_err(|x| Fail::new(format!("{name}: write {idx}: {}", e(&x))))?;
-        let p = hs_read(r, &m, 65535).map_err(|x| Fail::new(format!("{name}: endpoints with these backends do not interoperate: read {idx}: {}", e(&x))))?;
+        let slack = [65535usize, plen, plen + 1, plen + 15, plen + 16][(idx + plen) % 5];
+        let p = hs_read(r, &m, slack).map_err(|x| Fail::new(format!("{name}: endpoints with these backends do not interoperate: read {idx} (payload {plen}, read buffer {slack}): {}", e(&x))))?;
         if p != payload {
             return Err(Fail::new(format!("{name}: payload {idx} differs")));
         }
@@ -71,13 +72,15 @@ fn transcript(spec: &SessionSpec, payload_classes: &[u8], fill: u64) -> Result<T
             let payload = spec.payload(50 + round, [0usize, 17, 300, 65519][round]);
             let (w, r) = if i_sends { (&mut ti, &mut tr) } else { (&mut tr, &mut ti) };
             let m = t_write(w, &payload, payload.len() + 16).map_err(|x| Fail::new(format!("{name}: transport write: {}", e(&x))))?;
-            let p = t_read(r, &m, payload.len()).map_err(|x| Fail::new(format!("{name}: endpoints with these backends do not interoperate in transport mode (round {round}): {}", e(&x))))?;
+            // the receiver's buffer is exact, slightly larger (1, 15, 16 spare bytes) or ample
+            let slack = [0usize, 1, 15, 16, 40000][(round + i_sends as usize + payload.len()) % 5];
+            let p = t_read(r, &m, payload.len() + slack).map_err(|x| Fail::new(format!("{name}: endpoints with these backends do not interoperate in transport mode (round {round}, read buffer = payload + {slack}): {}", e(&x))))?;
             if p != payload {
                 return Err(Fail::new(format!("{name}: transport payload differs")));
             }
             t.transport.push(m);
         }
-        if round == 1 {
+        if round == 1 || round == 2 {
             ti.rekey_outgoing();
             tr.rekey_incoming();
             if !oneway {
